@@ -145,3 +145,4 @@ PROP = {
     "assumptions": STD_ASSUME + ["the configuration builds use hooks off (plain library) with g++ 12 and clang++ 14 at -O0 and -O2", "value/unit and value are normal finite doubles (|.| in 1e-300..1e300) or exactly 0"],
 }
 PROP["level_text"] += ' A third of the exports go onto a file that already exists; unit factors include exactly 1, -1, 2, 0.5 and 10; In_Units with rounding must return a number with the requested digits within half a unit of the last digit of the quotient.'
+PROP["level_text"] += " Entries include exact powers of two at the limits of the integer types; errno is left at ERANGE/EDOM before imports; table files are fitted to power-of-two block sizes (and one byte off); the rounding oracle is independent of the library's Round."
